@@ -892,6 +892,10 @@ Proof. vm_compute. auto. Qed.
 Definition copy_field_isolates (f : string) : bool :=
   match find (fun p => String.eqb (fst p) f) entity_copy_plan with Some (_, (t, e)) => isolates e t | None => false end.
 Definition entity_copy_isolates : bool := plan_isolates (map snd entity_copy_plan).
+(** [answer_copies]: what EntityDef.engine_def and the two return statements of FGD.engine_dbase hand out — `deepcopy(..)` of the
+    cached object (which runs EntityDef.__deepcopy__ for every definition) or the cached object itself *)
+Definition answers_are_deep_copies : bool := forallb (fun p => isolates (snd p) TAny) answer_copies.
+Definition state_isolated : bool := entity_copy_isolates && answers_are_deep_copies.
 Theorem c16_copy_is_fresh : forall base v e t, has_type t v = true -> isolates e t = true ->
   Forall (fun a => base <= a) (addrs (do_copy base e v)).
 Proof. exact copy_is_fresh. Qed.
@@ -966,7 +970,7 @@ Definition multi_lazy_equals_eager_at (via : bool) (mode : merge_mode) : Prop :=
   = map (engine_dbase name ent bytes name_eqb decode ent_bases is_empty empty_bytes via mode g Bs) qs.
 Definition c16_property_hypotheses : bool :=
   line_cfg_ok gen_line_cfg && kv_type_prog_ok && io_type_prog_ok && type_table_ok && kind_keywords_read_back
-  && blocks_cfg_ok && lazy_via_get_ent && multi_modes_agree && helper_args_ok && entity_copy_isolates.
+  && blocks_cfg_ok && lazy_via_get_ent && multi_modes_agree && helper_args_ok && state_isolated.
 Fact and10_true (a b c d e f g h i j : bool) : a && b && c && d && e && f && g && h && i && j = true ->
   a = true /\ b = true /\ c = true /\ d = true /\ e = true /\ f = true /\ g = true /\ h = true /\ i = true /\ j = true.
 Proof. destruct a, b, c, d, e, f, g, h, i, j; cbn; intros; try discriminate; repeat split. Qed.
@@ -997,6 +1001,7 @@ Theorem c16_property : c16_property_hypotheses = true ->
 Proof.
   intros H. destruct (and10_true _ _ _ _ _ _ _ _ _ _ H) as (L & K & I & T & W & B & V & M & A & S). clear H.
   unfold helper_args_ok in A. apply andb_true_iff in A as [A _].
+  unfold state_isolated in S. apply andb_true_iff in S as [S _].
   destruct (line_cfg_ok_parts _ L) as [C2 R].
   unfold multi_modes_agree in M. apply andb_true_iff in M as [M _]. apply merge_is_first_eq in M.
   pose proof (type_text_property_gen kv_type_prog io_type_prog vt_lookup_tab TARGET_DESTINATION K I T) as (P1 & P2 & P3).
